@@ -31,7 +31,7 @@
 (*            how each object arrives), pair alphabet                      *)
 (***************************************************************************)
 EXTENDS C01_Objects, C01_Catalogue, Json
-CONSTANTS Sweeps, PairDepth, NearDepth, DeepDepth, HierDepth, XDepth, EmitCases
+CONSTANTS Sweeps, PairDepth, NearDepth, DeepDepth, HierDepth, XDepth, Wide, EmitCases
 VARIABLES todo, hist, sweep, arr
 
 vars == << objs, dict, last, cmemo, todo, hist, sweep, arr >>
@@ -67,7 +67,8 @@ SmallPairs == {
     << CallKwN(ff, << x >>, Dct(A1B2)), CallKwN(ff, << x >>, Imm(<< KwE("b", Two), KwE("a", One) >>)) >> }
 
 \* how the objects of a tuple arrive (position by position; beyond its length: built here)
-XCombos == { << "pkh", "" >>, << "pkc", "" >>, << "pk", "" >>, << "", "pkh" >> }
+XCombos == { << "pkh", "" >>, << "pkc", "" >>, << "", "pkh" >> }
+           \cup (IF Wide THEN { << "pk", "" >> } ELSE {})
 XSweeps == {"xtwin", "xnear", "xdeep", "xsmall"}
 Twins(P) == { << p[1], p[1] >> : p \in P }
 
@@ -82,11 +83,11 @@ Init ==
                   [] sweep = "deepq" -> RepPairsQuick \cup RepTriplesQuick
                   [] sweep = "small" -> SmallPairs
                   [] sweep = "sim"   -> UPairs \cup RepTriples \cup HierTuples
-                  [] sweep = "hier"  -> HierTuples
+                  [] sweep = "hier"  -> IF Wide THEN HierTuples ELSE HierTuplesQuick
                   [] sweep = "hsmall" -> HierSmall
                   [] sweep = "xtwin" -> { << sp, sp >> : sp \in AllSpecs }
                   [] sweep = "xnear" -> NearPairs
-                  [] sweep = "xdeep" -> RepPairsQuick \cup Twins(RepPairsQuick)
+                  [] sweep = "xdeep" -> RepPairsQuick \cup (IF Wide THEN Twins(RepPairsQuick) ELSE {})
                   [] sweep = "xsmall" -> SmallPairs \cup Twins(SmallPairs)
     /\ arr \in (IF sweep \in XSweeps THEN XCombos
                 ELSE IF sweep = "sim" THEN XCombos \cup { << >> } ELSE { << >> })
